@@ -18,7 +18,7 @@ use crate::sys;
 
 const OUTPUTS: [&str; 6] = ["absent", "file", "blockdev-large", "blockdev-small", "blockdev-small-via-symlink", "absent+concurrent-creator"];
 const FLAGS: [&str; 3] = ["none", "force-create", "seed-output"];
-const ARCHIVES: [&str; 6] = ["valid", "random-bytes", "header-bit-flip", "truncated-header", "verify-header-mismatch", "empty-file"];
+const ARCHIVES: [&str; 7] = ["valid", "random-bytes", "header-bit-flip", "truncated-header", "verify-header-mismatch", "empty-file", "inconsistent-dictionary"];
 
 pub const CLONE_CELLS: u32 = (OUTPUTS.len() * FLAGS.len() * ARCHIVES.len() * 2) as u32;
 pub const COMPRESS_CELLS: u32 = 6;
@@ -210,6 +210,36 @@ fn run_clone(ctx: &mut Ctx, cell: u32) {
             let n = gen::draw(ra.header_len as u32) as usize;
             presented.truncate(n);
         }
+        "inconsistent-dictionary" => {
+            // a header whose checksum is right (re-encoded by the independent encoder) around a
+            // dictionary that no conforming archive can have: a rebuild index that names no
+            // descriptor (exactly one past the last, or far beyond), or a stored chunk whose
+            // offset runs past the end of the 64-bit address space. The archive is invalid; the
+            // clone must refuse it before the output path comes into being (S14-A: validation
+            // off by one, and the part that trips over it moved behind the open).
+            let mut d = ra.dict.clone();
+            let nd = d.descriptors.len();
+            let what = if nd == 0 { 0 } else { gen::draw(3) };
+            match what {
+                0 | 1 => {
+                    let v = [nd as u32, nd as u32, nd as u32 + 1, u32::MAX][gen::draw(4) as usize];
+                    if d.rebuild_order.is_empty() || what == 0 {
+                        d.rebuild_order.push(v);
+                    } else {
+                        let i = gen::draw(d.rebuild_order.len() as u32) as usize;
+                        d.rebuild_order[i] = v;
+                    }
+                }
+                _ => {
+                    let i = gen::draw(nd as u32) as usize;
+                    d.descriptors[i].archive_offset = u64::MAX - gen::draw(64) as u64;
+                }
+            }
+            let db = crate::refmodel::format::encode_dict(&d, &crate::refmodel::format::EncodeStyle::default());
+            let mut a = crate::refmodel::format::build_header(if ra.legacy_magic { crate::refmodel::format::LEGACY_MAGIC } else { crate::refmodel::format::MAGIC }, &db, None);
+            a.extend_from_slice(&m.archive[ra.chunk_data_offset as usize..]);
+            presented = a;
+        }
         "verify-header-mismatch" => {
             let mut sum = ra.header_checksum.clone();
             let mut odd = false;
@@ -340,7 +370,7 @@ fn run_clone(ctx: &mut Ctx, cell: u32) {
     }
     simkit::with(|s| s.event("c14-cell", cell as u64, 0));
     // which refusal, if any, does the statement name for this cell?
-    let archive_refusal = matches!(archive_kind, "random-bytes" | "header-bit-flip" | "truncated-header" | "verify-header-mismatch" | "empty-file");
+    let archive_refusal = matches!(archive_kind, "random-bytes" | "header-bit-flip" | "truncated-header" | "verify-header-mismatch" | "empty-file" | "inconsistent-dictionary");
     // a concurrent exclusive creator that won the race made the output exist: what it wrote is
     // the "prior content" that a refusing (neither -f nor --seed-output) clone must leave alone
     let prior = if creator_won { Some(MARKER.to_vec()) } else { prior };
